@@ -125,6 +125,17 @@ func (e *Engine) VerifyFunc(fn *ssa.Function, ct *FuncContract) (obls []*Obligat
 	out, res := c.execFunction(fr, st)
 	if out.pc.S != "false" {
 		// postconditions are proved separately on every return path (simpler queries, named by source order)
+		// reachability covers: every return path must be consistent with all the facts assumed on the way
+		// (an inconsistent assumption - contradictory invariant, bad rely - would make every proof vacuous)
+		for k, rp := range fr.retVals {
+			if ct.Opts["dead"] == fmt.Sprintf("ret%d", k+1) {
+				// declared dead code: proved unreachable instead
+				c.prove(fmt.Sprintf("dead.ret%d", k+1), fmt.Sprintf("return path %d (%s) is dead code", k+1, e.pos(rp.pos)), rp.st.pc, False, nil)
+				continue
+			}
+			c.prove(fmt.Sprintf("reach.ret%d", k+1), fmt.Sprintf("return path %d (%s) is reachable: the assumptions made on the way are consistent (this query must not be UNSAT)", k+1, e.pos(rp.pos)), rp.st.pc, False, nil)
+			c.obls[len(c.obls)-1].Kind = "vacuity"
+		}
 		if len(fr.retVals) > 1 && ct.Opts["ensures"] != "merged" {
 			for k, rp := range fr.retVals {
 				sc2 := c.contractScope(fn, ct, fv, args, rp.st, entry, rp.val)
